@@ -35,6 +35,10 @@ func c09Scenarios() []ConcScenario {
 	out = append(out, ConcScenario{Name: "D8-two-legacy-back-to-back", Deviation: true, Segmented: true, RoundRobin: true, Plans: []TunnelPlan{
 		{Kind: "legacy", ConnID: "A", User: "ua", IP: "10.0.0.1", Host: "ha.example:3389", Script: []string{"data:[A-1]", "data:[A-2]", "data:[A-3]", "idle"}},
 		{Kind: "legacy", ConnID: "B", User: "ub", IP: "10.0.0.2", Host: "hb.example:3389", Script: []string{"data:[B-1]", "data:[B-2]", "data:[B-3]", "idle"}}}})
+	// D9: two tunnels whose real tokens are verified by the real security callbacks at the same time
+	out = append(out, ConcScenario{Name: "D9-two-ws-real-tokens", Deviation: true, RoundRobin: true, RealCookie: true, Plans: []TunnelPlan{
+		{Kind: "ws", ConnID: "A", User: "ua", IP: "10.0.0.1", Host: "ha.example:3389", Script: []string{"data:[A-1]", "drop"}},
+		{Kind: "ws", ConnID: "B", User: "ub", IP: "10.0.0.2", Host: "hb.example:3389", Script: []string{"data:[B-1]", "drop"}}}})
 	out = append(out,
 		ConcScenario{Name: "D5-legacy-in-out-concurrent", Plans: []TunnelPlan{
 			{Kind: "legacy", ConnID: "A", User: "ua", IP: "10.0.0.1", Host: "ha.example:3389", SplitLegacy: true, StopAt: "hs", Script: []string{"drop"}}}},
@@ -107,7 +111,7 @@ func c09(env *Env, rep *Report) {
 		names = append(names, s.Name)
 	}
 	rep.Rule = "all thread schedules (client(s), real HTTP handler(s), the gateway's relay goroutine, backend(s)) of the drivers " + strings.Join(names, ", ") +
-		" and D7 (a connection-file download concurrent with a tunnel's channel creation, host list shared as main.go shares it), D8 (two legacy tunnels, back-to-back traffic, one write per read, lockstep default schedule) up to the preemption / deviation bound, on the real handlers over in-memory connections; oracle per schedule: no race report from the race runtime (race build, hand-off invisible to it), " +
+		" and D7 (a connection-file download concurrent with a tunnel's channel creation, host list shared as main.go shares it), D8 (two legacy tunnels, back-to-back traffic, one write per read, lockstep default schedule), D10 (two logged-in browsers downloading at the same time from a gateway with an .rdp template), D9 (two websocket tunnels whose real tokens are verified by the real security callbacks, the identity-provider round trip being a scheduling point) up to the preemption / deviation bound, on the real handlers over in-memory connections; oracle per schedule: no race report from the race runtime (race build, hand-off invisible to it), " +
 		"client byte stream decodes into whole well-formed packets whose data payloads are a prefix of what the host sent, no panic in any thread. distinct_nontrivial = distinct per-schedule observations."
 	rep.Assumptions = append(rep.Assumptions,
 		"scheduling points are the blocking operations and every Write/Close on a connection, dial, spawn, lock/unlock; a single Write is atomic (as in Go's network layer)",
@@ -120,7 +124,7 @@ func c09(env *Env, rep *Report) {
 	rep.Bounds = map[string]any{"preemption_bound": bound, "race_build": vsched.RaceEnabled}
 	if env.Replay != nil {
 		name, _ := env.Replay["scenario"].(string)
-		if name == "D7-download-vs-channel-create" {
+		if name == "D7-download-vs-channel-create" || name == "D10-two-downloads-with-template" {
 			var prefix []int
 			if cs, ok := env.Replay["choices"].([]any); ok {
 				for _, c := range cs {
@@ -129,7 +133,11 @@ func c09(env *Env, rep *Report) {
 					}
 				}
 			}
-			r := c09WebRun(prefix, rl)
+			run := c09WebRun
+			if name == "D10-two-downloads-with-template" {
+				run = c09Web2Run
+			}
+			r := run(prefix, rl)
 			fmt.Println("outcome:", r.Outcome)
 			for _, v := range r.Violations {
 				rep.violate(v.Sig, v.Detail, env.Replay)
